@@ -42,14 +42,25 @@ func VerifC17Staking() {
 	ctx := rt.Ctx()
 	bond := "atele"
 	rt.Override("(github.com/cosmos/cosmos-sdk/x/staking/keeper.Keeper).BondDenom", func(_ stakingkeeper.Keeper, _ sdk.Context) string { return bond })
-	for _, m := range []string{"(github.com/cosmos/cosmos-sdk/x/staking/types.MsgDelegate).ValidateBasic", "(github.com/cosmos/cosmos-sdk/x/staking/types.MsgUndelegate).ValidateBasic",
-		"(github.com/cosmos/cosmos-sdk/x/staking/types.MsgBeginRedelegate).ValidateBasic", "(github.com/cosmos/cosmos-sdk/x/distribution/types.MsgWithdrawDelegatorReward).ValidateBasic"} {
-		rt.Abstract(m)
+	// stateless validation of the native message (the SDK runs ValidateBasic only for the messages of a transaction, so for a
+	// message built by the hook this call is the only one): arbitrary outcome, counted
+	validated := 0
+	vb := func() error {
+		if rt.Bool("message-fails-stateless-validation") {
+			return stubErr{}
+		}
+		validated++
+		return nil
 	}
+	rt.Override("(github.com/cosmos/cosmos-sdk/x/staking/types.MsgDelegate).ValidateBasic", func(stakingtypes.MsgDelegate) error { return vb() })
+	rt.Override("(github.com/cosmos/cosmos-sdk/x/staking/types.MsgUndelegate).ValidateBasic", func(stakingtypes.MsgUndelegate) error { return vb() })
+	rt.Override("(github.com/cosmos/cosmos-sdk/x/staking/types.MsgBeginRedelegate).ValidateBasic", func(stakingtypes.MsgBeginRedelegate) error { return vb() })
+	rt.Override("(github.com/cosmos/cosmos-sdk/x/distribution/types.MsgWithdrawDelegatorReward).ValidateBasic", func(distypes.MsgWithdrawDelegatorReward) error { return vb() })
 	var routed []sdk.Msg
 	var routedOK []bool
 	rt.Override("(*github.com/cosmos/cosmos-sdk/baseapp.MsgServiceRouter).Handler", func(_ *baseapp.MsgServiceRouter, msg sdk.Msg) baseapp.MsgServiceHandler {
 		return func(ctx sdk.Context, req sdk.Msg) (*sdk.Result, error) {
+			rt.Assert("D6-an-executed-message-passed-its-stateless-validation", validated > len(routed))
 			routed = append(routed, req)
 			ok := rt.Bool("native-action-succeeds")
 			routedOK = append(routedOK, ok)
